@@ -297,3 +297,45 @@ def std_strategy(S, payload=None, hashable=None):
 
 def is_hashable_std(r):
     return r[1] in ('datetime', 'date', 'time', 'timedelta', 'tz', 'uuid', 'enum', 'path', 'struct_time')
+
+
+def deep_same(a, b, dict_mode='keep'):
+    """type-strict equality that recurses through built-in containers and uses std_equal for everything else"""
+    from . import eqv
+    ta = type(a)
+    if ta is not type(b):
+        if isinstance(a, dt.tzinfo) and isinstance(b, dt.tzinfo):
+            return std_equal(a, b, deep_same) is None
+        return False
+    if ta in (list, tuple):
+        return len(a) == len(b) and all(deep_same(x, y, dict_mode) for x, y in zip(a, b))
+    if ta is dict:
+        if len(a) != len(b):
+            return False
+        if dict_mode == 'keep':
+            return all(deep_same(k1, k2, dict_mode) and deep_same(v1, v2, dict_mode)
+                       for (k1, v1), (k2, v2) in zip(a.items(), b.items()))
+        rest = list(b.items())
+        for k1, v1 in a.items():
+            for i, (k2, v2) in enumerate(rest):
+                if deep_same(k1, k2, dict_mode) and deep_same(v1, v2, dict_mode):
+                    del rest[i]
+                    break
+            else:
+                return False
+        return True
+    if ta in (set, frozenset):
+        if len(a) != len(b):
+            return False
+        rest = list(b)
+        for x in a:
+            for i, y in enumerate(rest):
+                if deep_same(x, y, dict_mode):
+                    del rest[i]
+                    break
+            else:
+                return False
+        return True
+    if ta in (int, float, bool, str, bytes) or a is None or a is Ellipsis:
+        return eqv.same(a, b)
+    return std_equal(a, b, deep_same) is None
